@@ -664,6 +664,8 @@ func (v *Verifier) jump(st *State, b *ssa.BasicBlock) bool {
 					if it := st.iters[rg]; it != nil && it.visited != nil {
 						ks := it.msort.Fields[0].Sort.Key
 						it.visited = Fresh("mapseen", ArraySort(ks, SBool))
+						it.count = Fresh("mapcount", SInt)
+						st.assume(Ge(it.count, IntLit(0)))
 						it.curKey = nil
 						mo := Select(st.getHeap(it.msort), it.mapRef)
 						j := BVar("k$seen", ks)
@@ -1598,11 +1600,11 @@ func (v *Verifier) rangeInit(st *State, in *ssa.Range) {
 	if ok {
 		it.known = true
 		it.entries = es
-	} else {
-		it.visited = ConstArr(ArraySort(ms.Fields[0].Sort.Key, SBool), TFalse)
-		iterSeq++
-		it.seq = iterSeq
 	}
+	it.visited = ConstArr(ArraySort(ms.Fields[0].Sort.Key, SBool), TFalse)
+	it.count = IntLit(0)
+	iterSeq++
+	it.seq = iterSeq
 	st.iters[in] = it
 	st.env[in] = IntLit(0)
 }
@@ -1630,7 +1632,13 @@ func (v *Verifier) next(st *State, in *ssa.Next) bool {
 		}
 		return true
 	}
-	if !it.known && !st.initMod && it.visited != nil {
+	loopHasSpec := false
+	if c := v.contractFor(st.top().fn); c != nil && c.Loops != nil {
+		if ord, isHeader := v.loopsOf(st.top().fn).headers[st.top().block.Index]; isHeader && c.Loops[ord] != nil {
+			loopHasSpec = true
+		}
+	}
+	if (!it.known || loopHasSpec) && !st.initMod && it.visited != nil {
 		// a map of unknown contents: some key not handed out before, or none left - in an order nobody fixes.
 		// (The loop needs invariants; they may speak of rangeseen(k) and rangekey().)
 		mo := Select(st.getHeap(it.msort), it.mapRef)
@@ -1644,6 +1652,11 @@ func (v *Verifier) next(st *State, in *ssa.Next) bool {
 		st.assume(Implies(more, And(Select(dom, k), Not(Select(it.visited, k)))))
 		j := BVar("k$rng", ks)
 		st.assume(Implies(Not(more), Forall([]*Term{j}, Implies(Select(dom, j), Select(it.visited, j)))))
+		// as many keys have been handed out as the map holds exactly when none is left
+		card := Sel(mo, 2)
+		st.assume(Implies(more, Lt(it.count, card)))
+		st.assume(Implies(Not(more), Eq(it.count, card)))
+		it.count = Ite(more, Add(it.count, IntLit(1)), it.count)
 		it.curKey = k
 		it.visited = Ite(more, Store(it.visited, k, TTrue), it.visited)
 		st.env[in] = mkTuple(more, k, Select(val, k))
